@@ -43,7 +43,7 @@ PROPS["C01"] = dict(
           "(recursion with a decreasing counter), closures with 1..3 parameters, currying, closures returned from functions and stored in "
           "maps, if, switch, try/catch (value and closure form, thrown tokens), list/map literals, index, member access, method calls, "
           "static functions; binding constructs are placed in every let-position (call/method/static arguments, list items, map values, "
-          "branches); local names are reused across sibling scopes, shadow static function names, and with 15% a declared name (let, func, parameter) is one that is visible from an enclosing function - an argument, an outer let, func or parameter (legal shadowing across function bodies, incl. 'let y = y*10' inside a closure and nested closures that capture the redeclared name); the list form of membership (list ~ list) is generated; ~20% of the programs "
+          "branches); local names are reused across sibling scopes, shadow static function names, and with 15% a declared name (let, func, parameter) is one that is visible from an enclosing function - an argument, an outer let, func or parameter (legal shadowing across function bodies, incl. 'let y = y*10' inside a closure and nested closures that capture the redeclared name); the list form of membership (list ~ list) is generated; closures stored in maps under field names that are also map methods with the same signature (get, isAvail: the closure field has precedence); ~20% of the programs "
           "may contain failing or ill-typed sub-terms. Each program is rendered to text, evaluated on value.New() with the default "
           "optimizer and with SetOptimizer(nil), and compared deeply with the reference interpreter's outcome for 1..3 generated "
           "arguments. A case is non-trivial if the reference run read at least one let/func/parameter binding and the program mentions "
@@ -102,7 +102,7 @@ PROPS["C10"] = dict(
     pkg="c10",
     rule=("histories on ONE generator: 1..3 generated programs (35% with failing paths), 2..4 argument tuples each, and 4..50 steps drawn "
           "from: evaluate (f,t); evaluate and hold the possibly lazy result unconsumed; consume a held result later; evaluate and consume "
-          "only k elements of a lazy list; Generate a program again in between. Every outcome - including results consumed many steps "
+          "only k elements of a lazy list; Generate a program again in between; in half of the histories the host builds the argument values of a tuple once and passes the very same objects to every evaluation with that tuple. The programs include lazy lists over constants whose closure fails at one item (shared by all evaluations: forcing them fails every time, prefix consumers succeed every time). Every outcome - including results consumed many steps "
           "after their evaluation - must equal the reference interpreter's outcome for its own arguments (hence the first outcome for the "
           "same pair). Non-trivial: a function saw >=2 distinct tuples and a tuple was re-evaluated after a failing, held or partially "
           "consumed evaluation or an intervening Generate; distinct = program texts + step sequence."),
@@ -141,7 +141,7 @@ PROPS["C15"] = dict(
     pkg="c15",
     rule=("layout: token lists of valid value-language programs (C01 generator) x one generated separator per gap: nothing (only where no "
           "lexer could merge the neighbours), blank, tab, CR, LF, CRLF, // and /* */ comments (tight against both neighbours or set off by "
-          "blanks; containing quotes, stars, slashes, keywords, alias characters and - in block comments - line breaks; two comments in a "
+          "blanks; containing quotes, stars, slashes, keywords, alias characters and - in block comments - line ends of every convention (LF, CR LF, CR: only the line feed counts as a line break); two comments in a "
           "row; comment at end of input) x comments enabled/disabled. Oracle (metamorphic): structural AST dump of the variant == dump of "
           "the single-blank layout; every Ident/Const node reports the line on which its token starts according to the layout engine (the "
           "token a node refers to is learnt from a one-token-per-line layout); a stray ')' appended on a known line is rejected with that "
@@ -199,7 +199,7 @@ PROPS["C12"] = dict(
     rule=("parse part: 1..6 inputs from the C04 generators (token soups, valid programs followed by unread tokens, mutated valid programs: "
           "weighted toward inputs where parsing stops with tokens unread) are parsed 1..20 times each in one process (value generator "
           "Generate / GenerateWithMap, generic parser). pipeline part: pipelines from the C06 generator (sources up to 1500 elements, up to 4 "
-          "stages, cost profiles that force parallel execution, merge, multiUse, 25% with a failing element) weighted toward consumers that "
+          "stages, cost profiles that force parallel execution, merge, multiUse, the error paths of multiUse (consumers that are fine followed by an entry that is rejected; a consumer that fails at once), 25% with a failing element) weighted toward consumers that "
           "stop early (first, top(n).size(), present, indexWhere) and toward lazy results that the host forces, drops or consumes for 3 "
           "elements only, evaluated 1..3 times. Invariant over the runtime goroutine profile: after a grace period (poll up to 3 s; what is "
           "left must be present with the same goroutine id in a confirmation snapshot, or be blocked and unchanged for 400 ms) no goroutine "
@@ -245,7 +245,7 @@ PROPS["C13"] = dict(
     rule=("rapid histories of 2..15 operations over a pool of <=6 map handles and a key pool of 8 (collisions likely): create (map literal "
           "through the language, host-built list map, hash map, NewToMap struct wrapper with generated attribute sets, "
           "NewToMapReflection on a fixed struct, NewFuncMapFactory map, the description maps of binning's bins; optionally with 25 extra "
-          "keys to reach the >20-key branch of the flattening), put, + (merge), replace with another handle as replacement map (keys "
+          "keys to reach the >20-key branch of the flattening), put, + (merge of two handles, and merge with a one-entry map whose key is new - always disjoint, so that chains of merges and several merges with the same left operand are frequent; a third of the steps derives again from the operand of the previous step), replace with another handle as replacement map (keys "
           "inside and outside the original key set), replace chains of 1..13 steps (crossing the flatten threshold at depth 10), eval, map, "
           "accept, combine. After EVERY step EVERY live handle is observed against a Go-map model: m.k, get, isAvail and ~ for every pool "
           "key, one present extra key and one absent key; size(); list(); map/accept/eval copies; string() parsed back as a set; = against a "
@@ -289,7 +289,7 @@ PROPS["C20"] = dict(
           "exact rational arithmetic (math/big): every element lands in exactly the bin given by the stated inequalities, each bin holds "
           "the exact sum of its elements, the bins sum to the sum of all weights, descr/xd/yDescr have min/max equal to the bin's interval "
           "with only one bound for the outer bins, collectBinning over the binnings of the parts equals the binning of the whole list "
-          "(values and descriptions), a negative count is rejected. Non-trivial: an element on an edge or far outside, or >=2 parts; "
+          "(values and descriptions) - once over rebuilt copies of the parts and twice over the binning values the implementation itself returned, which must not be changed by being collected -, a negative count is rejected. Non-trivial: an element on an edge or far outside, or >=2 parts; "
           "distinct = the whole input."),
     assumptions=["all generated coordinates, weights and axis parameters are exactly representable; sums are exact"],
     jobs=[dict(name="c20", run="^TestPropC20$", kind="rapid", shards=16, checks={"quick": 100000, "thorough": 3000000},
